@@ -146,12 +146,16 @@ package tls
 // verified against what) on every successful path that is not a resumption (TLS 1.3: not PSK; TLS 1.2: first
 // handshake of the connection), with the certificates of the received message.
 //@ func (*clientHandshakeStateTLS13).readServerCertificate
-//@   property C14
+//@   property C14 C21
 //@   unchecked safety pre
 //@   note unchecked: thin contract (control flow and call arguments only)
 //@   requires hs != nil
 //@   ensures verified13: ret == nil && !old(hs.usingPSK) ==> called(verifyServerCertificate, 0) && callres(verifyServerCertificate, 0) == nil
 //@   at before call verifyServerCertificate#0: assert chain_of_message: arg1 == certMsg.certificate.Certificate
+//@   at before call readHandshake#0: assert first_read_unhashed: isnil(arg1)
+//@   at before call readHandshake#1: assert second_read_unhashed: isnil(arg1)
+//@   at before call utlsReadServerCertificate#0: assert certreq_hashed_once: called(readHandshake, 1) ==> called(transcriptMsg, 0)
+//@   note *_unhashed / certreq_hashed_once (C21): a message that may be a CompressedCertificate is read without being written to the transcript (utlsReadServerCertificate transcribes it exactly once, verif_contracts_hs.go); a CertificateRequest read before it is transcribed here, once
 
 //@ func (*clientHandshakeState).doFullHandshake
 //@   property C14
